@@ -144,7 +144,7 @@ def judge(module, traces, tag=None, jvms=4, workers=4, heap='3g', timeout=1800, 
         """
         ch = chunks[ci]
         alive = list(range(len(ch)))
-        for attempt in range(60):
+        for attempt in range(400):
             res = run_tlc(module, env={'TRACE_FILE': files[ci]}, workers=workers,
                           heap=heap, timeout=timeout, tag=f'{tag}_{ci}')
             if not tlc_failed(res):
